@@ -45,9 +45,11 @@ def comment_payloads(rng, kind, n):
         out.append(('own-block', f'/* {tag} {h.replace("*/", "")} */'))
         out.append(('own-multi', f'// {tag} 1\n// {tag} 2 {h}'))
         out.append(('own-block-multi', f'/* {tag}\n {h.replace("*/", "")}\n*/'))
+        out.append(('own-block-stars', rng.choice([f'/** {tag} **/', '/***/', f'/* {tag} ***/', f'/*** {tag} * / * **/', '/**/'])))
     elif kind.startswith('eol:'):
         out.append(('eol-line', f'// {tag} {h}'))
         out.append(('eol-block', f'/* {tag} {h.replace("*/", "")} */'))
+        out.append(('eol-block-stars', rng.choice([f'/** {tag} **/', '/***/', f'/* {tag} ***/'])))
     elif kind.startswith('gap:'):
         out.append(('gap-block', f'/* {tag} */'))
     return out
